@@ -44,12 +44,12 @@ pub fn run(part: &mut Part) {
         "C05" => {
             let profiles = if TINY {
                 vec![
-                    prof("empty x A_full", vec![seed_empty()], a_full(), if q { 3 } else { 4 }),
+                    prof("empty x A_full", vec![seed_empty()], a_full(), if q { 4 } else { 5 }),
                     prof(
                         "structural seeds x A_full",
                         structural_seeds(),
                         a_full(),
-                        if q { 2 } else { 3 },
+                        if q { 3 } else { 4 },
                     ),
                 ]
             } else {
@@ -156,7 +156,7 @@ pub fn run(part: &mut Part) {
             let profiles = if TINY {
                 vec![
                     prof("empty x A_full", vec![seed_empty()], a_full(), if q { 3 } else { 4 }),
-                    prof("structural seeds x A_full", structural_seeds(), a_full(), if q { 2 } else { 3 }),
+                    prof("structural seeds x A_full", structural_seeds(), a_full(), if q { 3 } else { 4 }),
                 ]
             } else {
                 let mut s = vec![seed_empty()];
@@ -193,8 +193,8 @@ pub fn run(part: &mut Part) {
         "C16" => {
             let profiles = if TINY {
                 vec![
-                    prof("empty x A_full", vec![seed_empty()], a_full(), if q { 3 } else { 4 }),
-                    prof("structural seeds x A_full", structural_seeds(), a_full(), if q { 2 } else { 3 }),
+                    prof("empty x A_full", vec![seed_empty()], a_full(), if q { 4 } else { 5 }),
+                    prof("structural seeds x A_full", structural_seeds(), a_full(), if q { 3 } else { 4 }),
                 ]
             } else {
                 let mut s = vec![seed_empty()];
